@@ -39,11 +39,19 @@ def swap_dir(dirs, directory):
         dirs[0] = tmp
 
 
-def _directory_of(path):
-    """ The directory a file really lives in (as given, unless the file is reached through a symbolic link). """
+class SameNameError(Exception):
+    def __init__(self, name, first, second):
+        Exception.__init__(self, "two different files named '%s' are used: %s and %s" % (name, first, second))
+
+
+def _directories_of(path):
+    """
+    Where the includes of a file are searched first: next to the file itself, then (for a file reached through a
+    symbolic link) next to the link. The order does not depend on how the file was reached.
+    """
     given = os.path.dirname(path)
     real = os.path.dirname(os.path.realpath(path))
-    return given if os.path.realpath(given or os.curdir) == real else real
+    return [given] if os.path.realpath(given or os.curdir) == real else [real, given]
 
 
 class FileProcessor(object):
@@ -54,6 +62,10 @@ class FileProcessor(object):
         self.include_dirs = [d for d in include_dirs]
         self.files = {}
         '''Absolute paths are keys, values are results of process_content calls'''
+        self.names = {}
+        '''Base names (outputs are named after them) of the files used so far, with the file each one stands for'''
+        self.own_dirs = []
+        '''Directories searched before include_dirs for the includes of the file being processed'''
 
     def __call__(self, path):
         return self.process_main(path)
@@ -65,7 +77,7 @@ class FileProcessor(object):
         '''
         if not os.path.isfile(path):
             raise FileNotFoundError(path)
-        with push_dir(self.include_dirs, _directory_of(path)):
+        with push_dir(self.include_dirs, _directories_of(path)[0]), self._own_dirs(path):
             return self._process_file(path)
 
     def process_leaf(self, leaf):
@@ -73,23 +85,38 @@ class FileProcessor(object):
 
         It's meant to be called multiple times recurrentially by content processor.
         '''
-        path = _get_first_existing_path(leaf, self.include_dirs)
+        path = _get_first_existing_path(leaf, self.include_dirs[:1] + self.own_dirs + self.include_dirs[1:])
         if not path:
             raise FileNotFoundError(leaf)
         """ a file is one file however it is reached: its own includes are searched next to the file itself """
-        with swap_dir(self.include_dirs, _directory_of(path)):
+        with swap_dir(self.include_dirs, _directories_of(path)[0]), self._own_dirs(path):
             return self._process_file(path)
+
+    @contextmanager
+    def _own_dirs(self, path):
+        saved = self.own_dirs
+        self.own_dirs = _directories_of(path)[1:]
+        try:
+            yield
+        finally:
+            self.own_dirs = saved
 
     def _process_file(self, path):
         abspath = os.path.realpath(path)   # one file reached through a symbolic link is still one file
+        name = os.path.splitext(os.path.basename(path))[0]
+        if self.names.setdefault(name, abspath) != abspath:
+            raise SameNameError(name, self.names[name], abspath)
         if abspath in self.files:
             if self.files[abspath] is None:
                 raise CyclicIncludeError(path)
             return self.files[abspath]
         self.files[abspath] = None
 
-        with codecs.open(path, 'r', encoding='utf-8-sig') as f:
-            content = f.read()
+        try:
+            with codecs.open(path, 'r', encoding='utf-8-sig') as f:
+                content = f.read()
+        except UnicodeError as e:
+            raise UnicodeError("%s: %s" % (path, e))
         result = self.process_content(content, path, lambda leaf: self.process_leaf(leaf))
         self.files[abspath] = result
         return result
